@@ -35,6 +35,8 @@ fn schemas() -> Vec<(&'static str, Vec<String>)> {
         ("standard-base-prerelease-post-dev", a(&["--schema", "standard-base-prerelease-post-dev"])),
         ("ron-literals", a(&["--schema-ron", "(core:[var(Major),var(Minor),var(Patch),uint(5),str(\"x\")],extra_core:[var(Epoch),var(PreRelease),uint(7),var(Post),var(Dev),str(\"e\")],build:[str(\"b\"),uint(9),var(BumpedBranch),var(ts(\"YYYY\"))])"])),
         ("calver-base", a(&["--schema", "calver-base"])),
+        // secondary variables in reverse order, no Major, literals between variables: index -> field mapping must follow the schema
+        ("ron-reordered", a(&["--schema-ron", "(core:[uint(1),var(Minor),str(\"s\"),var(Patch)],extra_core:[var(Dev),uint(0),var(Post),var(PreRelease),var(Epoch)],build:[uint(2)])"])),
     ]
 }
 
@@ -178,7 +180,7 @@ fn main() {
         let alpha = alphabet(&env.init, !quick);
         alpha_sizes.push(alpha.len());
         // the literal-heavy schema has the largest alphabet: one size smaller there
-        let k = match (quick, env.schema_name) { (true, "ron-literals") => 2, (true, _) => 3, (false, "ron-literals") => 3, (false, _) => 3 };
+        let k = match (quick, env.schema_name) { (true, "ron-literals") | (true, "ron-reordered") => 2, (true, _) => 3, (false, _) => 3 };
         let pk = if quick { 2 } else { 3 };
         let subs = subsets(alpha.len(), k);
         let st = subs.par_iter().map(|sub| {
@@ -301,7 +303,7 @@ fn main() {
     cov.evaluations = cov.transitions;
     cov.traces_validated = cov.transitions;
     cov.distinct_nontrivial = all.get("model_ok");
-    cov.rule = format!("flag-instance alphabets of sizes {alpha_sizes:?} per (start version x schema) environment ({} environments: 6 start versions x 3 schemas): every subset up to size 3 (2 for the literal-heavy schema in quick) run through the real clap parser + run_version_pipeline with --output-format zerv and compared (schema + vars) with R-BUMP; permutations: all orders for subsets up to size {} and the reversed order above; invalid targets and boundary amounts enumerated per section; chaining: every single op, then every op set of size <= {} via --source stdin, model continued from the intermediate state. non-trivial = runs where the model predicts success and the full state is compared", envs.len(), if quick { 2 } else { 3 }, if quick { 1 } else { 2 });
+    cov.rule = format!("flag-instance alphabets of sizes {alpha_sizes:?} per (start version x schema) environment ({} environments: 6 start versions x 4 schemas): every subset up to size 3 (2 for the literal-heavy schema in quick) run through the real clap parser + run_version_pipeline with --output-format zerv and compared (schema + vars) with R-BUMP; permutations: all orders for subsets up to size {} and the reversed order above; invalid targets and boundary amounts enumerated per section; chaining: every single op, then every op set of size <= {} via --source stdin, model continued from the intermediate state. non-trivial = runs where the model predicts success and the full state is compared", envs.len(), if quick { 2 } else { 3 }, if quick { 1 } else { 2 });
     cov.exhaustive = true;
     cov.samples = vec![json!({"start":"1.2.3-rc.4","schema":"standard-base-prerelease-post-dev","argv":["--bump-major","--patch","3","--bump-extra-core=~1"]}), json!({"start":"stdin-u64max","schema":"ron-literals","argv":["--bump-major=2"]}), json!({"chain":["--bump-minor"],"then":["--core=0=4"]})];
     cov.set("clause_counts", all.to_json());
